@@ -507,7 +507,7 @@ def sameDirs (a b : Arms) : Bool :=
   (a.1 != 0) == (b.1 != 0) && (a.2.1 != 0) == (b.2.1 != 0) && (a.2.2.1 != 0) == (b.2.2.1 != 0) && (a.2.2.2 != 0) == (b.2.2.2 != 0)
 
 /-- Unicode has a glyph with exactly these arms. -/
-def hasExact (a : Arms) : Bool := boxArms.any (· == some a)
+def hasExact (a : Arms) : Bool := (List.range 128).any fun i => boxArms.getD i none == some a
 
 /-- `cp` is an acceptable picture of line mask `mask`: a box-drawing character with an arm in exactly the
     directions the mask has one, and *the* character with exactly the mask's arms where Unicode has one. -/
